@@ -15,6 +15,9 @@ CONSTANTS Ctx <- McCtx
  ATo = {}
  AAmt = {}
  IAmt = {}
+ ACodes = {}
+ AIds = {}
+ BGL = {}
  BoxFrom = {}
  BoxTo = {}
  RewFrom = {}
